@@ -169,6 +169,16 @@ CHECKS = {
             'One open known finding (hoisting order) is classified by divergence shape (same events, other order, nothing else wrong).',
             'Operand side effects only log; exemptions as documented in the transform docstring.',
             'DESIGN.md 3/C18'),
+    'C19': ('exploration',
+            'type-probe twin: run-time type of every evaluated expression, binding and captured variable compared with the TYPES / CLOSURE_TYPES annotations the real inference produced with a truthful resolver',
+            'Generated functions of the quantified class are analysed by the real pipeline (qual_names, activity, cfg, reaching '
+            'definitions, reaching function definitions, type_inference.resolve) with a resolver that answers from the real namespace, '
+            'the argument types the harness passes, declared results of typed externals and the real operators applied to '
+            'representatives, and None otherwise. The same tree, deep-copied and instrumented, runs under CPython on 4 inputs; each '
+            'probe logs the abstract type of the value under the index of the annotated node. Every (node, observed type) pair on an '
+            'annotated node and every (local function, captured variable, type at a call) triple with a CLOSURE_TYPES entry is judged.',
+            'Two program classes: one that avoids the constructs of the two recorded findings (no violation of any kind is tolerated there) and one that does not (violations are attributed by mechanism). A set containing typing.Any is read as unknown.',
+            'DESIGN.md 3/C19'),
     'C20': ('exploration',
             'exhaustive enumeration of the option space with an executing-code probe',
             'All 1024 option values are built in every spelling, round-tripped through the source form the '
